@@ -71,7 +71,7 @@ def seeds():
     bad = 0
     first = sys.argv[2] if len(sys.argv) > 2 else ""
     for name in sorted(os.listdir(sd)):
-        if name < first:
+        if name < first or any(t and (name.startswith(t) or name.endswith(t)) for t in os.environ.get("ZV_SKIP", "").split(",")):
             continue
         meta = json.load(open(os.path.join(sd, name, "meta.json")))
         if meta.get("live_at_head") is False:
